@@ -72,6 +72,9 @@ def image_case(draw):
         if variant == "opus":
             c["spt"] = 18
     c["surface"] = _small_surface(draw, variant, c["tracks"], c["spt"])
+    # an interleaved image whose second side carries no catalogue / an HFE file not padded to 512 after its last track
+    c["blank_side1"] = ext in ("dsd", "ddd") and draw(st.integers(0, 3)) == 0
+    c["hfe_unpadded"] = ext == "hfe" and draw(st.integers(0, 2)) == 0
     # mutations
     muts = []
     for _ in range(draw(st.integers(0, 4))):
@@ -81,6 +84,7 @@ def image_case(draw):
                      "val": draw(st.sampled_from([0, 1, 2, 3, 0x7F, 0x80, 0xF8, 0xFE, 0xFF, 8, 12, 16, 18, 0x1F, 0x20]))})
     c["muts"] = muts
     c["gz"] = draw(st.sampled_from([0, 0, 0, 1, 2]))     # 0 plain, 1 gzip, 2 gzip then corrupt/truncate
+    c["gz_members"] = draw(st.sampled_from([1, 1, 2, 3]))
     c["cmd"] = draw(st.integers(0, len(COMMANDS) - 1))
     c["verbose"] = draw(st.integers(0, 3)) == 0
     c["variant_build"] = draw(st.sampled_from(["asan", "asan", "dbg", "ndebug"]))
@@ -138,6 +142,11 @@ def flux_track_bytes(c):
     return nominal + 2200
 
 
+def compress_image(c, data):
+    """gzip an image the way the case says (level 1, 1-3 members)."""
+    return containers.gz(data, level=1, members=c.get("gz_members", 1))
+
+
 def build_image(c):
     s = c["surface"]
     ext = c["ext"]
@@ -146,7 +155,12 @@ def build_image(c):
     if ext in ("ssd", "sdd"):
         data = img
     elif ext in ("dsd", "ddd"):
-        data = containers.interleaved(img, img, c["spt"])
+        other = img
+        if c.get("blank_side1"):
+            other = bytearray(disc.expand({"kind": "rand", "seed": 5}, len(img)))
+            other[256 + 5] = 0xFF
+            other = bytes(other)
+        data = containers.interleaved(img, other, c["spt"])
         bounds += [c["spt"] * 256, c["spt"] * 256 + 512, 2 * c["spt"] * 256]
     elif ext == "mmb":
         import tempfile
@@ -174,7 +188,8 @@ def build_image(c):
                     d.setdefault(pos, []).append((k, arg))
                 return d
         data = flux.hfe_from_sides(sides, c["tracks"], c["spt"], c["enc"], version=c["version"], v3ops=v3ops,
-                                   quirks_fn=quirks_fn, track_bytes=flux_track_bytes(c))
+                                   quirks_fn=quirks_fn, track_bytes=flux_track_bytes(c),
+                                   pad_last=not c.get("hfe_unpadded"))
         bounds += [8, 9, 10, 11, 12, 18, 20, 512, 512 + 4, 512 + 4 * c["tracks"], 1024, 1024 + 256, 1024 + 512]
     else:
         sides = [img] * c["nsides"]
@@ -298,7 +313,7 @@ class C07(CheckBase):
                 data = bytes(mutate(case, data, bounds))
                 name = "img." + case["ext"]
                 if case["gz"]:
-                    z = gzip.compress(data, 1, mtime=0)
+                    z = compress_image(case, data)
                     if case["gz"] == 2 and len(z) > 12:
                         z = bytearray(z)
                         if case["seed"] % 2:
